@@ -48,7 +48,7 @@ def make(rng, name, node=False, with_starts=None, with_ignore=None, with_cons=No
     is_int = True if cyclic else (rng.random() < 0.7)
     scale = 1 if is_int else rng.choice([0.5, 0.25, 1.5])
     ws = [rng.choice([1, 2, 3, 4]) * scale for _ in routes]
-    G = nx.DiGraph()
+    G = nx.DiGraph(); G.graph["id"] = "graph 1"
     used_e = collections.Counter(); used_v = collections.Counter()
     for r, w in zip(routes, ws):
         for e in zip(r, r[1:]):
